@@ -219,7 +219,9 @@ func genChain(r *vrng, id int) chainCase {
 	return c
 }
 
-func runChain(t *testing.T, ctx caddy.Context, c chainCase) (sig, desc string) {
+// runChain provisions and compiles the route list once — as a server does — and serves `conns` connections with it, one after
+// the other, each carrying the same stream: handler instances (and whatever they cache) are shared between connections.
+func runChain(t *testing.T, ctx caddy.Context, c chainCase, conns int) (sig, desc string) {
 	raw, _ := json.Marshal(c.routes)
 	var routes layer4.RouteList
 	if err := json.Unmarshal(raw, &routes); err != nil {
@@ -228,14 +230,32 @@ func runChain(t *testing.T, ctx caddy.Context, c chainCase) (sig, desc string) {
 	if err := routes.Provision(ctx); err != nil {
 		t.Fatalf("provision: %v (%s)", err, raw)
 	}
+	fell := false
+	h := routes.Compile(zap.NewNop(), time.Hour, layer4.HandlerFunc(func(cx *layer4.Connection) error { fell = true; return nil }))
+	for k := 0; k < conns; k++ {
+		sig, desc = runChainConn(c, h, &fell)
+		if sig != "" {
+			if k > 0 {
+				desc = fmt.Sprintf("connection %d served by the same provisioned handlers: %s", k+1, desc)
+			}
+			return sig, desc
+		}
+	}
+	return "", ""
+}
+
+func runChainConn(c chainCase, h layer4.Handler, fell *bool) (sig, desc string) {
+	*fell = false
 	vrecMu.Lock()
 	for id := range c.expect {
 		vrecDone[id] = make(chan struct{})
+		delete(vrecData, id)
+		delete(vrecAddr, id)
 	}
 	vrecMu.Unlock()
-	sc := &sconn{chunks: c.chunks, eof: true, remote: &net.TCPAddr{IP: net.IPv4(127, 0, 0, 1), Port: 40001}}
-	fell := false
-	h := routes.Compile(zap.NewNop(), time.Hour, layer4.HandlerFunc(func(cx *layer4.Connection) error { fell = true; return nil }))
+	chunks := make([][]byte, len(c.chunks))
+	copy(chunks, c.chunks)
+	sc := &sconn{chunks: chunks, eof: true, remote: &net.TCPAddr{IP: net.IPv4(127, 0, 0, 1), Port: 40001}}
 	cx := layer4.WrapConnection(sc, make([]byte, 0, 2048), zap.NewNop())
 	err := h.Handle(cx)
 	need := c.routes[0]["match"].([]map[string]any)[0]["vneed"].(map[string]any)["n"].(int)
@@ -245,7 +265,7 @@ func runChain(t *testing.T, ctx caddy.Context, c chainCase) (sig, desc string) {
 	if err != nil {
 		return "chain-error", fmt.Sprintf("handler chain returned %v", err)
 	}
-	if fell {
+	if *fell {
 		return "chain-fallback", "the route did not match although enough bytes were sent"
 	}
 	for id, rng := range c.expect {
@@ -300,7 +320,11 @@ func TestVerifChain(t *testing.T) {
 		c := genChain(r, i)
 		fmt.Fprintf(out.cases, "chain %s chunks=%d\n", c.desc, len(c.chunks))
 		out.cases.Flush()
-		sig, desc := runChain(t, ctx, c)
+		conns := r.pick(1, 1, 2, 3)
+		sig, desc := runChain(t, ctx, c, conns)
+		if conns > 1 {
+			stats["chains serving several connections"]++
+		}
 		if sig != "" {
 			out.fail(i, sig, desc)
 			fmt.Fprintf(out.out, "FAIL %s\n", sig)
